@@ -2,6 +2,7 @@ package main
 
 import (
 	"encoding/json"
+	"runtime/pprof"
 	"fmt"
 	"os"
 	"path/filepath"
@@ -197,32 +198,39 @@ func activeKnown() map[string]bool {
 	return active
 }
 
-// exploreShard runs one shard of one harness in the calling goroutine
-func exploreShard(prog *ssa.Program, pkg *ssa.Package, spec HarnessSpec, tier, shard, n int, active map[string]bool) (res *ShardResult) {
-	res = newShardResult(spec.Func, shard, n)
-	t0 := time.Now()
-	defer func() {
-		if r := recover(); r != nil {
-			res.Error = fmt.Sprintf("engine crashed: %v", r)
-			res.Complete = false
-		}
-		res.WallSec = time.Since(t0).Seconds()
-	}()
-	fn := pkg.Func(spec.Func)
-	if fn == nil {
-		res.Error = "no function " + spec.Func + " in " + pkg.Pkg.Path()
-		return res
-	}
+// newExec creates a worker state (own solver process, own interpreted-program globals) for one harness
+func newExec(prog *ssa.Program, pkg *ssa.Package, spec HarnessSpec, tier int, active map[string]bool) *Exec {
+	res := newShardResult(spec.Func, 0, 1)
+	res.Complete = true
 	x := &Exec{prog: prog, harnessPkg: pkg, solver: NewSolver(spec.Solver), funcsSeen: map[string]bool{}, res: res,
-		shard: shard, nshards: n, splitDepth: spec.Split, tier: tier, activeKnown: active, maxSteps: 4000000,
+		splitDepth: spec.Split, tier: tier, activeKnown: active, maxSteps: 4000000,
 		globals: map[*ssa.Global]Obj{}, inited: map[string]bool{}, quoted: map[*Str]bool{}, parseCache: map[string]Value{}}
 	if s := os.Getenv("GOSYM_MAXSTEPS"); s != "" {
 		x.maxSteps, _ = strconv.Atoi(s)
 	}
-	defer x.solver.Close()
-	x.deadline = t0.Add(time.Duration(spec.Timeout[tier]) * time.Second)
-	x.explore(fn)
-	return res
+	return x
+}
+
+// runTask explores either the frontier (item == nil) or one subtree; engine crashes are contained
+func (x *Exec) runTask(fn *ssa.Function, item *workItem, deadline time.Time) (frontier []workItem) {
+	t0 := time.Now()
+	defer func() {
+		if r := recover(); r != nil {
+			x.res.Error = fmt.Sprintf("engine crashed: %v", r)
+			x.res.Complete = false
+		}
+		x.res.WallSec += time.Since(t0).Seconds()
+	}()
+	x.deadline = deadline
+	if item == nil {
+		x.frontierMode = true
+		x.frontier = nil
+		x.explore(fn, nil)
+		x.frontierMode = false
+		return x.frontier
+	}
+	x.explore(fn, []workItem{*item})
+	return nil
 }
 
 // ---------- known findings ----------
@@ -282,7 +290,14 @@ func runShard(args []string) {
 		fatal("no harness %q", name)
 	}
 	prog, pkgs, loadSec := loadProgram([]string{spec.Pkg})
-	res := exploreShard(prog, pkgs[spec.Pkg], *spec, tier, shard, n, activeKnown())
+	_, _ = shard, n
+	x := newExec(prog, pkgs[spec.Pkg], *spec, tier, activeKnown())
+	fn := pkgs[spec.Pkg].Func(spec.Func)
+	x.splitDepth = 1 << 30
+	x.runTask(fn, nil, time.Now().Add(time.Duration(spec.Timeout[tier])*time.Second))
+	x.finish()
+	x.solver.Close()
+	res := x.res
 	res.LoadSec = loadSec
 	b, _ := json.Marshal(res)
 	fmt.Printf("RESULT %s\n", b)
@@ -296,6 +311,14 @@ func main() {
 	case "shard":
 		runShard(os.Args[2:])
 	case "check":
+		if pf := os.Getenv("GOSYM_CPUPROFILE"); pf != "" {
+			f, _ := os.Create(pf)
+			pprof.StartCPUProfile(f)
+			rc := runCheck(os.Args[2:])
+			pprof.StopCPUProfile()
+			f.Close()
+			os.Exit(rc)
+		}
 		os.Exit(runCheck(os.Args[2:]))
 	case "replay":
 		os.Exit(runReplayCmd(os.Args[2:]))
